@@ -84,6 +84,8 @@ def main():
     shutil.copy(os.path.join(src, "demo_test.go"), os.path.join(dst, "demo_test.go"))
     meta_out = dict(meta)
     meta_out["verification"] = out
+    if os.environ.get("SEED_NOTE"):
+        meta_out["note"] = os.environ["SEED_NOTE"]
     json.dump(meta_out, open(os.path.join(dst, "meta.json"), "w"), indent=1)
     print(json.dumps({k: v for k, v in out.items() if k not in ("demo_output_tail",)}, indent=1)[:1500])
 
